@@ -59,6 +59,10 @@ pub struct ReplayFile {
     pub detail: String,
     pub minimised: bool,
     pub trace: Trace,
+    /// runs executed in the same process before `trace` (only present when the violation depends
+    /// on what an earlier, unrelated terminal did in the process: state kept outside the screen)
+    #[serde(default, skip_serializing_if = "Vec::is_empty")]
+    pub prelude: Vec<Trace>,
 }
 
 #[derive(Serialize, Deserialize)]
@@ -294,6 +298,11 @@ fn load_known() -> Vec<KnownFinding> {
 /// Run a trace in a fresh child process: Some(class) if it violates, None if it holds.
 /// A child killed by a signal or timing out yields the pseudo classes abort/hang.
 pub fn run_isolated(prop: &str, trace: &Trace) -> Result<Option<String>, String> {
+    run_isolated_after(prop, trace, &[])
+}
+
+/// Like run_isolated, but the fresh process first executes `prelude` (outcomes ignored).
+pub fn run_isolated_after(prop: &str, trace: &Trace, prelude: &[Trace]) -> Result<Option<String>, String> {
     let dir = tmp_dir();
     let path = dir.join(format!("cand.{}.{:x}.json", std::process::id(), crate::prng::hash_str(&trace.to_json())));
     let rf = ReplayFile {
@@ -302,6 +311,7 @@ pub fn run_isolated(prop: &str, trace: &Trace) -> Result<Option<String>, String>
         detail: String::new(),
         minimised: false,
         trace: trace.clone(),
+        prelude: prelude.to_vec(),
     };
     std::fs::write(&path, serde_json::to_string(&rf).unwrap()).map_err(|e| e.to_string())?;
     let exe = std::env::current_exe().map_err(|e| e.to_string())?;
@@ -367,6 +377,7 @@ fn report_violation(
     v: &Violation,
     trace: &Trace,
     seed: u64,
+    opts: &CheckOpts,
 ) -> Result<(PathBuf, Violation), String> {
     let pid = prop.id().to_owned();
     let start_trace = match &v.concrete {
@@ -392,12 +403,76 @@ fn report_violation(
     if fatal && !test(&start_trace) {
         return Err(format!("SPURIOUS {} at run index {} did not reproduce in isolation", class, trace.index));
     }
+    // A non-fatal violation that does not reproduce when its run is executed alone in a fresh
+    // process depends on something an EARLIER run left behind in the worker process - state the
+    // library keeps outside its objects (a static, a thread-local). That is a violation in its own
+    // right (one terminal's behaviour depends on what another one did); its witness is the run
+    // together with its predecessors in that worker.
+    if !fatal {
+        let alone = run_isolated(&pid, &start_trace);
+        if !matches!(&alone, Ok(Some(c)) if *c == class) {
+            let stride = opts.workers.max(1) as u64;
+            for n in [1u64, 2, 4, 8, 16, 32] {
+                let mut prelude: Vec<Trace> = Vec::new();
+                for k in (1..=n).rev() {
+                    if trace.index >= k * stride {
+                        prelude.push(prop.generate(seed, trace.index - k * stride, opts.tier));
+                    }
+                }
+                if prelude.is_empty() {
+                    break;
+                }
+                if matches!(run_isolated_after(&pid, &start_trace, &prelude), Ok(Some(c)) if c == class) {
+                    let dir = PathBuf::from(VERIF_DIR).join("replays").join(prop.id());
+                    std::fs::create_dir_all(&dir).map_err(|e| e.to_string())?;
+                    let tag = crate::prng::hash_str(&class) & 0xffff;
+                    let path = dir.join(format!("{}-{}-{:04x}.json", seed, trace.index, tag));
+                    let detail2 = format!(
+                        "{} -- NOTE: this only happens after {} earlier run(s) in the same process (listed as `prelude` in the replay file); executed alone the run holds: the library keeps state outside the screen/parser objects",
+                        v.detail,
+                        prelude.len()
+                    );
+                    let rf = ReplayFile {
+                        property: prop.id().to_owned(),
+                        class: class.clone(),
+                        detail: detail2.clone(),
+                        minimised: false,
+                        trace: start_trace.clone(),
+                        prelude,
+                    };
+                    std::fs::write(&path, serde_json::to_string_pretty(&rf).unwrap()).map_err(|e| e.to_string())?;
+                    let mut v2 = v.clone();
+                    v2.detail = detail2;
+                    v2.concrete = None;
+                    return Ok((path, v2));
+                }
+            }
+            return Err(format!(
+                "violation {} at run index {} reproduces neither alone nor after up to 32 predecessor runs",
+                class, trace.index
+            ));
+        }
+    }
     // the concrete trace must itself fail (it may have been produced by enumeration)
     let base = if fatal || test(&start_trace) { start_trace } else { trace.clone() };
     let mut budget = shrink::Budget::new(if fatal { 300 } else { 2000 }, 60);
-    let min = shrink::shrink(base, &mut test, &mut budget);
+    let unshrunk = base.clone();
+    let mut min = shrink::shrink(base, &mut test, &mut budget);
+    // Candidates of non-fatal classes are executed in this process; if the library keeps state
+    // outside its objects, earlier candidates can make a later one fail. The minimised witness must
+    // therefore fail alone in a fresh process; if it does not, the unshrunk run (which does) is
+    // the witness.
+    let mut minimised = true;
+    if !fatal && !matches!(run_isolated(&pid, &min), Ok(Some(c)) if c == class) {
+        min = unshrunk;
+        minimised = false;
+        detail = format!(
+            "{} -- NOTE: not minimised: shrinking candidates influenced each other inside one process, i.e. the library keeps state outside the screen/parser objects",
+            v.detail
+        );
+    }
     // refresh the detail text from the minimised trace
-    if !fatal {
+    if !fatal && minimised {
         if let Outcome::Violated(v2) = check_guarded(prop, &min, &mut scratch) {
             if v2.class == class {
                 detail = v2.detail;
@@ -412,8 +487,9 @@ fn report_violation(
         property: prop.id().to_owned(),
         class: class.clone(),
         detail: detail.clone(),
-        minimised: true,
+        minimised,
         trace: min.clone(),
+        prelude: vec![],
     };
     std::fs::write(&path, serde_json::to_string_pretty(&rf).unwrap()).map_err(|e| e.to_string())?;
     // replay in a fresh process: must reproduce the same class
@@ -624,7 +700,7 @@ fn report_batch(prop: &dyn Property, prop_id: &str, opts: &CheckOpts, b: Batch, 
         if reported >= 5 {
             continue;
         }
-        match report_violation(prop, v, trace, opts.seed) {
+        match report_violation(prop, v, trace, opts.seed, opts) {
             Ok((path, v2)) => {
                 out(&format!("VIOLATION property={} replay={}", prop_id, path.display()));
                 out(&format!("  class={} detail={}", v2.class, v2.detail));
@@ -784,6 +860,9 @@ pub fn replay_main(path: &str, machine: bool) -> i32 {
     silence_stdout();
     exec::install_panic_hook();
     let mut cov = Coverage::default();
+    for t in &rf.prelude {
+        let _ = check_guarded(prop.as_ref(), t, &mut cov);
+    }
     match check_guarded(prop.as_ref(), &rf.trace, &mut cov) {
         Outcome::Held => {
             out(&format!("HELD property={}", rf.property));
